@@ -193,6 +193,36 @@ func checkC10(P *Program, r *Result, tier string) {
 				}
 			}
 		}
+		// … or the same test spelled out: (big-endian word at 4) & 0xFFFF0000 == 0x10000000
+		for _, b := range decode.Blocks {
+			for _, in := range b.Instrs {
+				eq, ok := in.(*ssa.BinOp)
+				if !ok || (eq.Op != token.EQL && eq.Op != token.NEQ) {
+					continue
+				}
+				for _, pr := range [][2]ssa.Value{{eq.X, eq.Y}, {eq.Y, eq.X}} {
+					k, isK := constInt(pr[1])
+					and, isAnd := pr[0].(*ssa.BinOp)
+					if !isK || k != 0x10000000 || !isAnd || and.Op != token.AND {
+						continue
+					}
+					for _, ap := range [][2]ssa.Value{{and.X, and.Y}, {and.Y, and.X}} {
+						mk, isMK := constInt(ap[1])
+						ld, isCall := ap[0].(*ssa.Call)
+						if !isMK || mk != 0xffff0000 || !isCall || ld.Common().StaticCallee() == nil || ld.Common().StaticCallee().Name() != "Bytes2Uint32NoCheck" || len(ld.Common().Args) != 1 {
+							continue
+						}
+						d := fa.sliceDesc(ld.Common().Args[0])
+						if d == nil || d.Root != meta {
+							continue
+						}
+						if o, isC := d.Off.constVal(); isC && o.Int64() == 4 && guardedBy(ret, eq, eq.Op == token.EQL) {
+							magic = true
+						}
+					}
+				}
+			}
+		}
 		r.add("VALIDATE", shortName(decode), "return", "success requires the TTHeader magic", pos, magic, "")
 		r.add("VALIDATE", shortName(decode), "return", "success requires 2 ≤ declared size ≤ 65536", pos,
 			fa.prove(ineqGE(S, linConst(2)), ret.Block(), rootCtx) && fa.prove(ineqLE(S, linConst(65536)), ret.Block(), rootCtx), "")
@@ -1167,6 +1197,37 @@ func checkC06(P *Program, r *Result, tier string) {
 				}
 				if o, isC := d.Off.constVal(); isC {
 					got[fmt.Sprintf("%s@%d", cc.Common().StaticCallee().Name(), o.Int64())] = true
+				}
+			}
+			// the flags are the low half of the big-endian word at 4: a 16-bit read at 6, or that word masked with 0xFFFF / narrowed to 16 bits
+			for _, c := range callsIn(decode) {
+				cc, ok := c.(*ssa.Call)
+				if !ok || cc.Common().StaticCallee() == nil || cc.Common().StaticCallee().Name() != "Bytes2Uint32NoCheck" || len(cc.Common().Args) != 1 || cc.Referrers() == nil {
+					continue
+				}
+				d := dfa.sliceDesc(cc.Common().Args[0])
+				if d == nil || d.Root != m {
+					continue
+				}
+				if o, isC := d.Off.constVal(); !isC || o.Int64() != 4 {
+					continue
+				}
+				for _, ref := range *cc.Referrers() {
+					switch x := ref.(type) {
+					case *ssa.BinOp:
+						if x.Op == token.AND {
+							if k, ok := constInt(x.Y); ok && k == 0xffff && x.X == ssa.Value(cc) {
+								got["Bytes2Uint16NoCheck@6"] = true
+							}
+							if k, ok := constInt(x.X); ok && k == 0xffff && x.Y == ssa.Value(cc) {
+								got["Bytes2Uint16NoCheck@6"] = true
+							}
+						}
+					case *ssa.Convert:
+						if b, isB := x.Type().Underlying().(*types.Basic); isB && b.Kind() == types.Uint16 {
+							got["Bytes2Uint16NoCheck@6"] = true
+						}
+					}
 				}
 			}
 			wantR := []string{"Bytes2Uint32NoCheck@0", "Bytes2Uint16NoCheck@6", "Bytes2Uint32NoCheck@8", "Bytes2Uint16NoCheck@12"}
